@@ -79,6 +79,19 @@ def _mk_key(form, dhex):
     raise ValueError(form)
 
 
+def z_as(zhex, form):
+    """The digest in the representation `form` (all denote the same 32 bytes)."""
+    if form == 'bytes':
+        return bytes.fromhex(zhex)
+    if form == 'hex':
+        return zhex.lower()
+    if form == 'hex-upper':
+        return zhex.upper()
+    if form == 'hex-mixed':
+        return ''.join(c.upper() if i % 2 else c.lower() for i, c in enumerate(zhex))
+    raise ValueError(form)
+
+
 def _obs_sig(sg, d, zhex):
     r, s = int(sg.r), int(sg.s)
     der = sg.as_der_encoded()
@@ -89,11 +102,11 @@ def _obs_sig(sg, d, zhex):
 
 
 def _do_sign(req):
-    from bitcoinlib.keys import sign, Signature
+    from bitcoinlib.keys import sign, Signature, verify
     d = int(req['d'], 16)
     try:
         key = _mk_key(req['keyform'], req['d'])
-        z = bytes.fromhex(req['z']) if req['zform'] == 'bytes' else req['z']
+        z = z_as(req['z'], req['zform'])
         kw = {'hash_type': req['ht']}
         if req['mode'] == 'random':
             kw['use_rfc6979'] = False
@@ -101,7 +114,19 @@ def _do_sign(req):
             kw['k'] = int(req['k'], 16)
         f = sign if req['api'] == 'sign' else Signature.create
         sg = f(z, key, **kw)
-        return _obs_sig(sg, d, req['z'])
+        o = _obs_sig(sg, d, req['z'])
+        if req.get('selfv'):
+            sv = {}
+            for name, call in (('obj.verify()', lambda: sg.verify()),
+                               ('obj.verify(z)', lambda: sg.verify(z)),
+                               ('obj.verify(z-bytes)', lambda: sg.verify(bytes.fromhex(req['z']))),
+                               ('verify(z,obj)', lambda: verify(z, sg))):
+                try:
+                    sv[name] = 'accept' if call() is True else 'reject'
+                except Exception:
+                    sv[name] = 'reject'
+            o['selfv'] = sv
+        return o
     except Exception as e:      # any exception = refused
         return {'refused': True, 'err': repr(e)[:200]}
 
@@ -154,8 +179,19 @@ def _do_verify(c):
                 ok = verify(z, sig, pub)
             elif api == 'verify-hex':       # hex digest and signature, key object
                 ok = verify(z.hex(), sig.hex(), Key(pub))
+            elif api == 'verify-hex-upper':
+                ok = verify(z.hex().upper(), sig.hex(), Key(pub))
             elif api == 'parse-verify':
                 ok = Signature.parse_bytes(sig, public_key=pub).verify(z)
+            elif api == 'parse-verify-hex':
+                ok = Signature.parse_bytes(sig).verify(z_as(z.hex(), c.get('zform2', 'hex')), pub)
+            elif api == 'reuse-verify-hex':
+                sg = Signature.parse_bytes(sig, public_key=pub)
+                try:
+                    sg.verify(z)
+                except Exception:
+                    pass
+                ok = sg.verify(z.hex())
             elif api == 'reuse-verify':     # the same object asked about another digest first
                 sg = Signature.parse_bytes(sig, public_key=pub)
                 try:
@@ -210,6 +246,25 @@ HASHTYPES = [1, 2, 3, 0x81, 0x82, 0x83, 0, 0x41, 0xff, 0x80, 0x7f]
 HALF_INV = pow(2, -1, N)        # nonce 1/2: x(k*G) has 166 bits only (the shortest r known)
 
 
+def ascii_digests(rng):
+    """32-byte BINARY digests whose bytes happen to be text: (class name, value).  A digest is 32 arbitrary bytes; code that
+    guesses "is this hex?" from the content goes wrong exactly here."""
+    def pick(alphabet):
+        return bytes(rng.choice(alphabet) for _ in range(32))
+    hexl, hexu, dig = b'0123456789abcdef', b'0123456789ABCDEF', b'0123456789'
+    out = [('ascii-hex-lower', pick(hexl)), ('ascii-hex-lower', b'0123456789abcdef' * 2), ('ascii-hex-upper', pick(hexu)),
+           ('ascii-hex-mixed', pick(hexl + b'ABCDEF')), ('ascii-digits', pick(dig)), ('ascii-letters-a-f', pick(b'abcdefABCDEF')),
+           ('ascii-zero-chars', b'0' * 32), ('ascii-one-char', bytes([rng.choice(hexl)]) * 32),
+           ('ascii-whitespace', pick(b' \t\n\r\x0b\x0c')), ('ascii-spaces', b' ' * 32),
+           ('ascii-hex-and-spaces', b''.join(rng.choice([b'ab', b'0 ', b' 1', b'f0', b'  ']) for _ in range(16))),
+           ('ascii-printable', pick(bytes(range(0x20, 0x7f)))), ('ascii-0x-prefix', b'0x' + pick(hexl)[:30]),
+           # digests whose hex TEXT looks like something else: only decimal digits / only letters / leading zeros
+           ('hextext-digits', bytes(rng.choice([0x12, 0x34, 0x56, 0x78, 0x90, 0x01]) for _ in range(32))),
+           ('hextext-letters', bytes(rng.choice([0xab, 0xcd, 0xef, 0xfa, 0xce]) for _ in range(32))),
+           ('hextext-leading-zeros', bytes(16) + pick(hexl)[:16])]
+    return [(name, int.from_bytes(b, 'big')) for name, b in out]
+
+
 def rand_scalar(rng):
     style = rng.randrange(6)
     if style == 0:
@@ -242,9 +297,14 @@ def rand_digest(rng):
     return rng.getrandbits(256)
 
 
-def sign_req(d, z, mode='det', k=None, ht=1, keyform='Key', zform='bytes', api='sign'):
-    return {'d': h32(d), 'z': h32(z), 'mode': mode, 'k': None if k is None else '%x' % k, 'ht': ht, 'keyform': keyform,
-            'zform': zform, 'api': api}
+def sign_req(d, z, mode='det', k=None, ht=1, keyform='Key', zform='bytes', api='sign', zc=None, selfv=False):
+    r = {'d': h32(d), 'z': h32(z), 'mode': mode, 'k': None if k is None else '%x' % k, 'ht': ht, 'keyform': keyform,
+         'zform': zform, 'api': api}
+    if zc:
+        r['zc'] = zc
+    if selfv:
+        r['selfv'] = True
+    return r
 
 
 def craft_digest(d, k, s_raw):
@@ -253,10 +313,24 @@ def craft_digest(d, k, s_raw):
     return (s_raw * k - r * d) % N
 
 
-def gen_sessions(rng, thorough):
+def gen_sessions(rng, thorough, zforms):
     """Lists of signing requests; each list is one trace (one ledger)."""
     sessions = []
     nscale = 6 if thorough else 1
+    # (0) digests that look like text, in every representation, on both signing entry points; the produced objects are
+    #     asked to verify themselves
+    for g in range(2 * nscale):
+        keys = [rand_scalar(rng) for _ in range(2)]
+        reqs = []
+        for name, z in ascii_digests(rng):
+            for d in keys:
+                for zf in zforms:
+                    reqs.append(sign_req(d, z, 'det', ht=rng.choice(HASHTYPES), keyform=rng.choice(KEYFORMS), zform=zf,
+                                         api=['sign', 'create'][len(reqs) % 2], zc=name, selfv=True))
+            reqs.append(sign_req(keys[0], z, 'random', zform=rng.choice(zforms), zc=name, selfv=True))
+            reqs.append(sign_req(keys[1], z, 'explicit', k=rng.randrange(1, N), zform=rng.choice(zforms), zc=name, selfv=True))
+        rng.shuffle(reqs)
+        sessions.append(('ascii', reqs))
     # (a) grids: every key with every digest, each pair signed several times under different representations
     for g in range(10 * nscale):
         keys = [rand_scalar(rng) for _ in range(4)]
@@ -271,7 +345,8 @@ def gen_sessions(rng, thorough):
                 for z in digs:
                     reqs.append(sign_req(d, z, 'det', ht=rng.choice(HASHTYPES) if rep else 1,
                                          keyform=KEYFORMS[(rep + len(reqs)) % len(KEYFORMS)] if rep else 'Key',
-                                         zform=rng.choice(['bytes', 'hex']), api=rng.choice(['sign', 'create'])))
+                                         zform=rng.choice(zforms), api=rng.choice(['sign', 'create']),
+                                         selfv=rng.random() < 0.25))
         rng.shuffle(reqs)
         sessions.append(('grid', reqs))
     # (b) library-drawn random nonces: same digest under several keys, same key over several digests, repeated pairs
@@ -283,7 +358,8 @@ def gen_sessions(rng, thorough):
             for z in digs:
                 for _ in range(2):
                     reqs.append(sign_req(d, z, 'random', ht=rng.choice(HASHTYPES), keyform=rng.choice(KEYFORMS),
-                                         zform=rng.choice(['bytes', 'hex']), api=rng.choice(['sign', 'create'])))
+                                         zform=rng.choice(zforms), api=rng.choice(['sign', 'create']),
+                                         selfv=rng.random() < 0.25))
                 reqs.append(sign_req(d, z, 'det'))
         rng.shuffle(reqs)
         sessions.append(('random', reqs))
@@ -356,6 +432,10 @@ def gen_bases(rng, thorough):
     d = rand_scalar(rng)
     own(d, rng.getrandbits(256), HALF_INV, name='short-r')
     own(d, craft_digest(d, HALF_INV, rng.randrange(1, 1 << 64)), HALF_INV, name='short-r-short-s')
+    # digests that look like text (reduced table: digest classes x key classes x both exact encodings, low and high S)
+    for i, (name, z) in enumerate(ascii_digests(rng)):
+        own(rand_scalar(rng), z, rng.randrange(1, N), flip=(i % 2 == 1), name=name)
+        bases[-1]['lite'] = True
     # small r and small s (so that r + n, s + n still fit 32 bytes): public key chosen to fit (no private key known)
     for _ in range(2 if thorough else 1):
         x = rng.randrange(1, 1 << 60)
@@ -428,7 +508,10 @@ def run(replay=None):
                       'function, compared with ref.py at start and on every 25th call',
                       'a nonce is identified by r = x(kG) mod n (k and n-k share it)',
                       'a 64-byte input is r||s by interface contract; DER inputs carry the hash-type byte',
-                      'refusing BER-valid but non-strict encodings (and DER without hash type) is permitted']
+                      'refusing BER-valid but non-strict encodings (and DER without hash type) is permitted',
+                      'a digest is 32 arbitrary bytes given as bytes or as hex text of any letter case; all representations '
+                      'denote the same message (digest classes include bytes that look like hex text, digits, whitespace, '
+                      'printable ASCII)']
 
     import time
     t0 = time.time()
@@ -443,12 +526,15 @@ def run(replay=None):
 
     phase('model')
     # ---------------- inputs
+    # Digest representations on the signing side: bytes and hex text of any letter case denote the same digest and must
+    # give the same signature (a disagreement between letter cases is the spec deviation "sign-nonce-depends-on-hex-case").
+    zforms = ['bytes', 'hex', 'hex-upper', 'hex-mixed']
     if replay:
         case = replay['case']
         sessions = [('replay', case['reqs'])] if case.get('kind') == 'sign' else []
         vcases = [case['vcase']] if case.get('kind') == 'verify' else []
     else:
-        sessions = gen_sessions(rng, thorough)
+        sessions = gen_sessions(rng, thorough, zforms)
         vcases = []
         bases = gen_bases(rng, thorough)
         # randomly mutated encodings of valid signatures (what they denote is decided by TLC)
@@ -460,7 +546,7 @@ def run(replay=None):
                 b['r'].to_bytes(32, 'big') + b['s'].to_bytes(32, 'big')
             muts.append((b, mutate(rng, enc)))
         grecs = [{'k': 'vgen', 'r': bl(b['r']), 's': bl(b['s']), 'z': list(b['z'].to_bytes(32, 'big')),
-                  'ht': rng.choice([1, 1, 0x83, 2])} for b in bases]
+                  'ht': rng.choice([1, 1, 0x83, 2]), 'lite': bool(b.get('lite'))} for b in bases]
         grecs += [{'k': 'denote', 'sig': list(m)} for _, m in muts]
         gout = spread_eval(grecs, PROCS // 2)
         gen, den = gout[:len(bases)], gout[len(bases):]
@@ -470,10 +556,11 @@ def run(replay=None):
                 for kc in c['keys']:
                     apis = ['verify', 'verify-hex', 'parse-verify'] + (['rs-verify'] if c['enc'] == 'raw64' else [])
                     if c['rc'] == 'valid' and c['sc'] in ('valid', 'twin'):
-                        apis.append('reuse-verify')
+                        apis += ['reuse-verify', 'reuse-verify-hex', 'verify-hex-upper', 'parse-verify-hex']
                     vcases.append({'sig': bytes(c['sig']).hex(), 'z': bytes(c['z']).hex(), 'pub': kv[kc].hex(), 'apis': apis,
                                    'kind': c['kind'], 'dr': bytes(c['dr']).hex(), 'ds': bytes(c['ds']).hex(),
                                    'tail': c['tail'], 'tr': bytes(c['tr']).hex(), 'ts': bytes(c['ts']).hex(),
+                                   'zform2': rng.choice(['hex', 'hex-upper', 'hex-mixed']),
                                    'cls': [b['name'], c['rc'], c['sc'], c['zc'], c['enc'], kc]})
         for (b, m), dn in zip(muts, den):
             vcases.append({'sig': m.hex(), 'z': h32(b['z']), 'pub': ref.ser_point(b['Q']).hex(),
@@ -503,7 +590,7 @@ def run(replay=None):
 
     def event(req, o):
         return {'mode': req.get('mode', 'det'), 'key': o.get('d', req.get('d')), 'z': o.get('z', req.get('z')),
-                'ht': req.get('ht', 1), 'r': hb(o['r'].zfill(len(o['r']) + len(o['r']) % 2)),
+                'rep': req.get('zform', 'bytes'), 'ht': req.get('ht', 1), 'r': hb(o['r'].zfill(len(o['r']) + len(o['r']) % 2)),
                 's': hb(o['s'].zfill(len(o['s']) + len(o['s']) % 2)), 'der': hb(o['der']), 'raw': hb(o['raw']), 'valid': o['valid']}
 
     recs, index = [], []
@@ -522,7 +609,7 @@ def run(replay=None):
         allev += [(ti, ei, req, o) for ei, req, o in good]
     if not replay:
         recs.append({'k': 'ledger', 'events': [{'mode': req.get('mode', 'det'), 'key': o.get('d', req.get('d')),
-                                                 'z': o.get('z', req.get('z')),
+                                                 'z': o.get('z', req.get('z')), 'rep': req.get('zform', 'bytes'),
                                                  'r': hb(o['r'].zfill(len(o['r']) + len(o['r']) % 2)),
                                                  's': hb(o['s'].zfill(len(o['s']) + len(o['s']) % 2))} for _, _, req, o in allev]})
     # one TLC round for signing traces, the global ledger and the verifier answers
@@ -535,6 +622,16 @@ def run(replay=None):
             vidx.append((c, api, res))
         vrecs.append({'k': 'pcase', 'sig': hb(c['sig']), 'p': res['parsed']})
         vidx.append((c, 'parse_bytes', res))
+    # signature objects made by the library, asked to verify themselves (a valid triple: must accept)
+    for ti, ei, req, o in allev:
+        if o.get('selfv') and o['valid']:
+            c = {'sig': o['der'], 'z': req['z'], 'pub': '(signer %s)' % req['d'], 'kind': 'strict', 'selfreq': req,
+                 'cls': ['signed:' + traces[ti][0], 'valid', 'valid', req.get('zc', 'right') + '/' + req['zform'], 'der', 'right']}
+            rr, ss = o['r'].zfill(len(o['r']) + len(o['r']) % 2), o['s'].zfill(len(o['s']) + len(o['s']) % 2)
+            for api, obs in sorted(o['selfv'].items()):
+                vrecs.append({'k': 'vcase', 'sig': hb(o['der']), 'oncurve': True, 'eq': True, 'fr': hb(rr), 'fs': hb(ss),
+                              'eqt': False, 'tr': [], 'ts': [], 'obs': obs})
+                vidx.append((c, api, {'obs': o['selfv']}))
     allverd = spread_eval(recs + vrecs, PROCS)
     verd, vverd = allverd[:len(recs)], allverd[len(recs):]
     reported = set()
@@ -553,7 +650,7 @@ def run(replay=None):
         for (ti, ei, req, o), fails in zip(allev, verd[-1]['evs']):
             for f in fails:
                 if (ti, ei, f['v']) not in reported:
-                    ck.violation(None, '%s: clause %s across sessions; r=%s s=%s' % (short(req), f['v'], o['r'], o['s']),
+                    ck.violation(f['dev'] or None, '%s: clause %s across sessions; r=%s s=%s' % (short(req), f['v'], o['r'], o['s']),
                                  {'kind': 'sign', 'reqs': related([(r_, o_) for _, _, r_, o_ in allev[:allev.index((ti, ei, req, o)) + 1]])})
     nsig = len(allev)
     ck.traces = len(traces)
@@ -567,6 +664,7 @@ def run(replay=None):
             got = res['obs'].get(api) if api != 'parse_bytes' else res['parsed']
             ck.violation(v['dev'] or None, '%s(sig=%s, z=%s, pub=%s) [%s]: clause %s; got %s, specification expects %s' % (
                 api, c['sig'], c['z'], c['pub'], '/'.join(c['cls']), v['v'], got, fmt_exp(v['exp'])),
+                {'kind': 'sign', 'reqs': [c['selfreq']]} if 'selfreq' in c else
                 {'kind': 'verify', 'vcase': dict(c, apis=[a for a in c['apis'] if a == api] or c['apis'][:1])})
 
     phase('judge signing traces and verifier answers (TLC)')
@@ -610,7 +708,7 @@ def sign_class(kind, req, o):
     if req.get('api') == 'tx':
         return kind, 'tx', req['wt'], req['st'], req['nin'], len(o['der']) // 2
     return (kind, req['mode'], req['api'], req['keyform'], req['zform'], req['ht'], size_class(int(req['d'], 16)),
-            size_class(int(req['z'], 16)), len(o['der']) // 2)
+            req.get('zc') or size_class(int(req['z'], 16)), len(o['der']) // 2)
 
 
 def short(req):
